@@ -81,56 +81,80 @@ Proof.
 Qed.
 
 Lemma std_type_facts dt : std_type dt = true ->
-  type_size dt = std_size dt /\ 0 < std_size dt /\ map upper (firstn 2 dt) = dt /\ bytes_eqb dt s_MT = false
-  /\ diff_type_size dt = std_size dt.
+  type_size_upper dt = std_size dt /\ 0 < std_size dt /\ map upper (firstn 2 dt) = dt /\ bytes_eqb dt s_MT = false
+  /\ diff_type_size dt = std_size dt /\ firstn 2 dt = dt /\ lenZ dt = 2 /\ norm_type dt = dt.
 Proof.
   intros H. apply std_type_cases in H. simpl in H.
   repeat (destruct H as [<-|H]; [repeat split; reflexivity|]). contradiction.
 Qed.
 
+(* what the size computation, the two-character truncation and the compound test make of a well-formed type *)
+Lemma type_norm_facts v h dt : std_type (type_norm v h dt) = true ->
+  type_size v (firstn 2 dt) = std_size (type_norm v h dt) /\ 0 < std_size (type_norm v h dt) /\
+  firstn 2 dt = dt /\ lenZ dt = 2 /\ (h = true -> map upper dt = dt /\ std_type dt = true).
+Proof.
+  intros H.
+  assert (G : (type_norm v h dt = dt /\ std_type dt = true) \/ (v = Cur /\ h = false)).
+  { destruct v, h; simpl in *; auto. }
+  destruct G as [[E Hs]|[-> ->]].
+  - rewrite E. destruct (std_type_facts dt Hs) as (H1 & H2 & H3 & _ & _ & H6 & H7 & H8).
+    rewrite H6. repeat split; auto.
+    + destruct v; unfold type_size; rewrite ?H8; exact H1.
+    + rewrite H6 in H3. exact H3.
+  - simpl in *. destruct (std_type_facts _ H) as (H1 & H2 & _ & _ & _ & H6 & H7 & _).
+    assert (L : length dt = 2%nat).
+    { unfold lenZ in H7. destruct dt as [|c r]; simpl in *; lia. }
+    destruct dt as [|c [|d [|e r]]]; simpl in L; try discriminate.
+    repeat split; auto; try discriminate.
+Qed.
+
 (* copy_node on a well-formed source node overwrites label, type, dimensions and data of the output node *)
-Lemma copy_node_ok h lbl dt dims data n l0 t0 d0 da0 ks :
-  node_ok h dt dims data = true ->
-  copy_node h lbl dt dims data (Node n l0 t0 d0 da0 ks) = Ok (Node n lbl dt dims data ks).
+Lemma copy_node_ok v h lbl dt dims data n l0 t0 d0 da0 ks :
+  node_ok v h dt dims data = true ->
+  copy_node v h lbl dt dims data (Node n l0 t0 d0 da0 ks) = Ok (Node n lbl dt dims data ks).
 Proof.
   unfold node_ok, copy_node. destruct (bytes_eqb dt s_MT) eqn:EMT.
   - apply bytes_eqb_eq in EMT. subst dt. intros H. apply andb_true_iff in H as [H1 H2].
     destruct dims; [|discriminate]. destruct data; [|discriminate]. simpl. destruct h; reflexivity.
   - intros H. apply andb_true_iff in H as [H H3]. apply andb_true_iff in H as [H1 H2].
-    destruct (std_type_facts dt H1) as (Hts & Hpos & Hup & _ & _).
+    destruct (type_norm_facts v h dt H1) as (Hts & Hpos & Hf & Hlen & Hh).
+    rewrite Hf in Hts. rewrite Hf.
     destruct dims as [|d rest].
     + simpl in H3. apply andb_true_iff in H3 as [H3 H4]. destruct data; [|discriminate].
       destruct h; [discriminate|]. simpl. rewrite EMT. reflexivity.
     + cbn [is_nil] in *. apply Z.eqb_eq in H3.
       unfold compute_data_size. rewrite elem_count_prod, Hts.
       pose proof (prodZ_pos _ H2) as Hp.
-      assert (Hne : std_size dt * prodZ (d :: rest) =? 0 = false) by (apply Z.eqb_neq; nia).
-      rewrite Hne, <- H3, Z.ltb_irrefl. cbn [bind set_label put_dims].
+      assert (Hne : std_size (type_norm v h dt) * prodZ (d :: rest) =? 0 = false) by (apply Z.eqb_neq; nia).
+      rewrite Hne, <- H3, Z.ltb_irrefl, Hlen.
+      replace (match v with Old => false | Cur => 2 <? 2 end) with false by (destruct v; reflexivity).
+      cbn [bind set_label put_dims].
       destruct h.
-      * rewrite Hup, EMT, H1. cbn [is_nil negb andb bind write_all]. reflexivity.
+      * destruct (Hh eq_refl) as [Hup Hs].
+        rewrite Hf, Hup, EMT, Hs. cbn [is_nil negb andb bind write_all]. reflexivity.
       * rewrite EMT. reflexivity.
 Qed.
 
 (* ---- unfolding ------------------------------------------------------------------------------------------------------------ *)
-Definition follow_call (h : bool) (resolve : bytes -> bytes -> option node) (fuel : nat) (follow : bool)
+Definition follow_call (v : ver) (h : bool) (resolve : bytes -> bytes -> option node) (fuel : nat) (follow : bool)
   : bytes -> bytes -> node -> Z -> res node :=
   fun file path c d =>
     match fuel with
     | O => OutOfFuel
     | S f => match resolve file path with
              | None => Err
-             | Some tgt => recurse_nodes h resolve f follow tgt c d
+             | Some tgt => recurse_nodes v h resolve f follow tgt c d
              end
     end.
 
-Lemma rn_unfold h resolve fuel follow nm lbl dt dims data kids out depth :
-  recurse_nodes h resolve fuel follow (Node nm lbl dt dims data kids) out depth =
-  bind (if depth =? 0 then Ok out else copy_node h lbl dt dims data out) (fun out1 =>
-    kids_loop (recurse_nodes h resolve fuel follow) (follow_call h resolve fuel follow) follow kids out1 depth).
+Lemma rn_unfold v h resolve fuel follow nm lbl dt dims data kids out depth :
+  recurse_nodes v h resolve fuel follow (Node nm lbl dt dims data kids) out depth =
+  bind (if depth =? 0 then Ok out else copy_node v h lbl dt dims data out) (fun out1 =>
+    kids_loop (recurse_nodes v h resolve fuel follow) (follow_call v h resolve fuel follow) follow kids out1 depth).
 Proof. destruct fuel; reflexivity. Qed.
 
-Lemma rn_link h resolve fuel follow nm f p out depth :
-  recurse_nodes h resolve fuel follow (LinkNode nm f p) out depth = Err.
+Lemma rn_link v h resolve fuel follow nm f p out depth :
+  recurse_nodes v h resolve fuel follow (LinkNode nm f p) out depth = Err.
 Proof. destruct fuel; reflexivity. Qed.
 
 (* ---- follow_links = 0: the copy is the identity on every well-formed tree, whatever the fuel ---------------------------- *)
@@ -167,10 +191,10 @@ Proof.
   - inversion H; subst. apply andb_true_iff; split; auto. apply IHl; auto.
 Qed.
 
-Lemma rn_nofollow h resolve fuel src :
-  tree_ok h src = true -> links_ok src = true -> is_link src = false ->
+Lemma rn_nofollow v h resolve fuel src :
+  tree_ok v h src = true -> links_ok src = true -> is_link src = false ->
   forall c l0 t0 d0 da0 ks0 depth, 0 < depth ->
-  recurse_nodes h resolve fuel false src (Node c l0 t0 d0 da0 ks0) depth =
+  recurse_nodes v h resolve fuel false src (Node c l0 t0 d0 da0 ks0) depth =
   match src with
   | Node _ lbl dt dims data kids => Ok (Node c lbl dt dims data (ks0 ++ kids))
   | LinkNode _ _ _ => Err
@@ -180,7 +204,7 @@ Proof.
   intros c l0 t0 d0 da0 ks0 depth Hd. rewrite rn_unfold.
   cbn [tree_ok] in Hok. apply andb_true_iff in Hok as [Hn Hk]. cbn [links_ok] in Hl.
   assert (E : depth =? 0 = false) by (apply Z.eqb_neq; lia). rewrite E.
-  rewrite (copy_node_ok _ _ _ _ _ _ _ _ _ _ _ Hn). cbn [bind].
+  rewrite (copy_node_ok _ _ _ _ _ _ _ _ _ _ _ _ Hn). cbn [bind].
   apply kids_loop_nofollow; [lia|].
   apply forallb_Forall in Hk. apply forallb_Forall in Hl.
   rewrite Forall_forall in *. intros k Hin. split; [auto|].
@@ -190,21 +214,22 @@ Qed.
 
 (* cgio_copy_file with follow_links = 0 into any output node: the source's children, all of them, in order,
    unchanged, are appended to the output root's children; the root's own label / type / data are not copied *)
-Lemma copy_file_nofollow h resolve fuel nm lbl dt dims data kids n l t d da ks0 :
-  forallb (tree_ok h) kids = true -> forallb links_ok kids = true ->
-  copy_file h resolve fuel false (Node nm lbl dt dims data kids) (Node n l t d da ks0) =
+Lemma copy_file_nofollow v h resolve fuel nm lbl dt dims data kids n l t d da ks0 :
+  forallb (tree_ok v h) kids = true -> forallb links_ok kids = true ->
+  copy_file v h resolve fuel false (Node nm lbl dt dims data kids) (Node n l t d da ks0) =
   Ok (Node n l t d da (ks0 ++ kids)).
 Proof.
   intros Hk Hl. unfold copy_file. rewrite rn_unfold. cbn [Z.eqb bind].
   apply kids_loop_nofollow; [lia|].
   apply forallb_Forall in Hk. apply forallb_Forall in Hl. rewrite Forall_forall in *.
   intros k Hin. split; [auto|]. intros Hkl dp Hdp. unfold fresh.
-  rewrite (rn_nofollow h resolve fuel k (Hk k Hin) (Hl k Hin) Hkl) by auto.
+  rewrite (rn_nofollow v h resolve fuel k (Hk k Hin) (Hl k Hin) Hkl) by auto.
   destruct k; [reflexivity|discriminate].
 Qed.
 
 (* ---- follow_links = 1 ------------------------------------------------------------------------------------------------------ *)
 Section Follow.
+Variable v : ver.
 Variable h : bool.
 Variable resolve : bytes -> bytes -> option node.
 
@@ -254,12 +279,12 @@ Proof.
         constructor; auto. apply (Hgl f p nm (depth + 1) o); auto; lia.
 Qed.
 
-Hypothesis resolve_ok : forall f p t, resolve f p = Some t -> tree_ok h t = true.
+Hypothesis resolve_ok : forall f p t, resolve f p = Some t -> tree_ok v h t = true.
 
 Lemma rn_follow_sound : forall fuel src,
-  tree_ok h src = true -> is_link src = false ->
+  tree_ok v h src = true -> is_link src = false ->
   forall c l0 t0 d0 da0 ks0 depth o, 0 < depth ->
-  recurse_nodes h resolve fuel true src (Node c l0 t0 d0 da0 ks0) depth = Ok o ->
+  recurse_nodes v h resolve fuel true src (Node c l0 t0 d0 da0 ks0) depth = Ok o ->
   exists ks', o = Node c (match src with Node _ l _ _ _ _ => l | _ => [] end)
                          (match src with Node _ _ dt _ _ _ => dt | _ => [] end)
                          (match src with Node _ _ _ d _ _ => d | _ => [] end)
@@ -272,7 +297,7 @@ Proof.
     intros c l0 t0 d0 da0 ks0 depth o Hd Hrun. rewrite rn_unfold in Hrun.
     cbn [tree_ok] in Hok. apply andb_true_iff in Hok as [Hn Hk].
     assert (E : depth =? 0 = false) by (apply Z.eqb_neq; lia). rewrite E in Hrun.
-    rewrite (copy_node_ok _ _ _ _ _ _ _ _ _ _ _ Hn) in Hrun. cbn [bind] in Hrun.
+    rewrite (copy_node_ok _ _ _ _ _ _ _ _ _ _ _ _ Hn) in Hrun. cbn [bind] in Hrun.
     apply kids_loop_follow in Hrun; [exact Hrun|lia| |].
     + apply forallb_Forall in Hk. rewrite Forall_forall in *. intros k Hin Hkl dp o' Hdp Hgo.
       destruct (IH k Hin (Hk k Hin) Hkl _ _ _ _ _ _ _ _ Hdp Hgo) as (ks' & -> & HE).
@@ -282,7 +307,7 @@ Proof.
     intros c l0 t0 d0 da0 ks0 depth o Hd Hrun. rewrite rn_unfold in Hrun.
     cbn [tree_ok] in Hok. apply andb_true_iff in Hok as [Hn Hk].
     assert (E : depth =? 0 = false) by (apply Z.eqb_neq; lia). rewrite E in Hrun.
-    rewrite (copy_node_ok _ _ _ _ _ _ _ _ _ _ _ Hn) in Hrun. cbn [bind] in Hrun.
+    rewrite (copy_node_ok _ _ _ _ _ _ _ _ _ _ _ _ Hn) in Hrun. cbn [bind] in Hrun.
     apply kids_loop_follow in Hrun; [exact Hrun|lia| |].
     + apply forallb_Forall in Hk. rewrite Forall_forall in *. intros k Hin Hkl dp o' Hdp Hgo.
       destruct (IH k Hin (Hk k Hin) Hkl _ _ _ _ _ _ _ _ Hdp Hgo) as (ks' & -> & HE).
@@ -297,8 +322,8 @@ Proof.
 Qed.
 
 Lemma copy_file_follow_sound fuel nm lbl dt dims data kids n l t d da ks0 o :
-  forallb (tree_ok h) kids = true ->
-  copy_file h resolve fuel true (Node nm lbl dt dims data kids) (Node n l t d da ks0) = Ok o ->
+  forallb (tree_ok v h) kids = true ->
+  copy_file v h resolve fuel true (Node nm lbl dt dims data kids) (Node n l t d da ks0) = Ok o ->
   exists ks', o = Node n l t d da (ks0 ++ ks') /\ ExpandsL kids ks'.
 Proof.
   intros Hk Hrun. unfold copy_file in Hrun. rewrite rn_unfold in Hrun. cbn [Z.eqb bind] in Hrun.
@@ -346,10 +371,10 @@ Definition with_kids (root : node) (ks : list node) : node :=
   match root with Node n l t d da _ => Node n l t d da ks | LinkNode _ _ _ => root end.
 
 (* cgio_copy_file / cg_save_as / cgnsconvert without link expansion: the new file holds the source's children *)
-Lemma do_copy_file_nofollow fuel w src dst h r :
+Lemma do_copy_file_nofollow v fuel w src dst h r :
   get_file w src = Some r -> is_link r = false ->
-  kids_ok h r = true -> forallb links_ok (kids_of r) = true ->
-  do_copy_file fuel w src dst h false = Ok (set_file w dst (with_kids (new_root h) (kids_of r))).
+  kids_ok v h r = true -> forallb links_ok (kids_of r) = true ->
+  do_copy_file v fuel w src dst h false = Ok (set_file w dst (with_kids (new_root h) (kids_of r))).
 Proof.
   intros Hg Hnl Hk Hl. unfold do_copy_file. rewrite Hg.
   destruct r as [nm lbl dt dims data kids|]; [|discriminate].
@@ -359,30 +384,30 @@ Proof.
 Qed.
 
 (* ... with link expansion: whenever the copy succeeds, the new file holds the expansion of the source's children *)
-Lemma do_copy_file_follow fuel w src dst h r w' :
-  get_file w src = Some r -> kids_ok h r = true ->
-  (forall f p t, resolve_in w src f p = Some t -> tree_ok h t = true) ->
-  do_copy_file fuel w src dst h true = Ok w' ->
+Lemma do_copy_file_follow v fuel w src dst h r w' :
+  get_file w src = Some r -> kids_ok v h r = true ->
+  (forall f p t, resolve_in w src f p = Some t -> tree_ok v h t = true) ->
+  do_copy_file v fuel w src dst h true = Ok w' ->
   exists ks', w' = set_file w dst (with_kids (new_root h) ks') /\
               ExpandsL (resolve_in w src) (kids_of r) ks'.
 Proof.
   intros Hg Hk Hres Hrun. unfold do_copy_file in Hrun. rewrite Hg in Hrun.
-  destruct (copy_file h (resolve_in w src) fuel true r (new_root h)) as [o| | |] eqn:E; try discriminate.
+  destruct (copy_file v h (resolve_in w src) fuel true r (new_root h)) as [o| | |] eqn:E; try discriminate.
   cbn [bind] in Hrun. inversion Hrun; subst w'.
   destruct r as [nm lbl dt dims data kids|nm f p].
   - unfold kids_ok in Hk. simpl in Hk.
     destruct h; unfold new_root, hdf5_root, adf_root in *;
-      (destruct (copy_file_follow_sound _ _ Hres _ _ _ _ _ _ _ _ _ _ _ _ _ _ Hk E) as (ks' & -> & HE);
+      (destruct (copy_file_follow_sound _ _ _ Hres _ _ _ _ _ _ _ _ _ _ _ _ _ _ Hk E) as (ks' & -> & HE);
        exists ks'; split; [reflexivity|exact HE]).
   - unfold copy_file in E. rewrite rn_link in E. discriminate.
 Qed.
 
 (* rewrite_file (cgio_compress_file, compress-on-close, cgnscompress): the named file is replaced by a file of the
    same type whose children are the source's *)
-Lemma rewrite_file_preserves fuel w src filename h r :
+Lemma rewrite_file_preserves v fuel w src filename h r :
   get_file w src = Some r -> is_link r = false ->
-  kids_ok h r = true -> forallb links_ok (kids_of r) = true ->
-  exists w', rewrite_file fuel w src filename h = Ok w' /\
+  kids_ok v h r = true -> forallb links_ok (kids_of r) = true ->
+  exists w', rewrite_file v fuel w src filename h = Ok w' /\
              get_file w' filename = Some (with_kids (new_root h) (kids_of r)) /\
              (forall g, bytes_eqb filename g = false -> get_file w' g = get_file w g).
 Proof.
@@ -391,21 +416,49 @@ Proof.
   - intros g Hne. apply get_set_other; auto.
 Qed.
 
-(* ---- corners where the code does NOT preserve the tree (witnesses; each is replayed on the library) ------------------------------- *)
+(* ---- the corners repaired in /repo: what the code does now (Cur) and what it did (Old) ---------------------------------------------- *)
 Definition w_lower : node :=       (* /N1 : type "r8", dimensions (2), 16 bytes -- a legal ADF node *)
   Node [] [] s_MT [] [] [Node [78;49] [76] [114;56] [2] [1;2;3;4;5;6;7;8;9;10;11;12;13;14;15;16] []].
-Lemma lowercase_type_data_dropped :
-  exists src out, copy_file false (fun _ _ => None) 0 false src adf_root = Ok out /\
+(* before cb07d24: size 0, the copy succeeded without the data *)
+Lemma lowercase_type_data_dropped_old :
+  exists src out, copy_file Old false (fun _ _ => None) 0 false src adf_root = Ok out /\
                   kids_of out = [Node [78;49] [76] [114;56] [2] [] []] /\ kids_of out <> kids_of src.
 Proof. exists w_lower. eexists. split; [vm_compute; reflexivity|]. split; [reflexivity|]. simpl. discriminate. Qed.
+(* now: the same node is inside the domain of the general theorem (ADF destination keeps the spelling) ... *)
+Lemma lowercase_type_copied :
+  forallb (tree_ok Cur false) (kids_of w_lower) = true /\ forallb (tree_ok Old false) (kids_of w_lower) = false /\
+  copy_file Cur false (fun _ _ => None) 0 false w_lower adf_root = Ok (match adf_root with
+                                                                       | Node n l t d da _ => Node n l t d da (kids_of w_lower)
+                                                                       | x => x end).
+Proof. split; [reflexivity|]. split; [reflexivity|]. vm_compute. reflexivity. Qed.
+(* ... and into an HDF5 file, which stores upper-case names only, it arrives as "R8" with all of its data *)
+Lemma lowercase_type_to_hdf5 :
+  exists out, copy_file Cur true (fun _ _ => None) 0 false w_lower hdf5_root = Ok out /\
+              kids_of out = [Node [78;49] [76] [82;56] [2] [1;2;3;4;5;6;7;8;9;10;11;12;13;14;15;16] []].
+Proof. eexists. split; vm_compute; reflexivity. Qed.
 
 Definition w_compound : node :=    (* /N1 : type "I4,R8", dimensions (2): 2 x 12 bytes in ADF *)
   Node [] [] s_MT [] [] [Node [78;49] [76] [73;52;44;82;56] [2] (repeat 65 24) []].
-Lemma compound_type_overflow :
-  exists src, copy_file false (fun _ _ => None) 0 false src adf_root = Overflow.
+(* before 3a1c414: buffer sized from the first two characters, the read overran it *)
+Lemma compound_type_overflow_old :
+  exists src, copy_file Old false (fun _ _ => None) 0 false src adf_root = Overflow.
 Proof. exists w_compound. vm_compute. reflexivity. Qed.
+(* now: EVERY node whose type string goes on after two characters and that has data to read makes cgio_copy_node
+   return an error before anything is written to the output node; the copy as a whole reports the error *)
+Lemma copy_node_compound_err h lbl dt dims data out :
+  is_nil dims = false -> compute_data_size Cur (firstn 2 dt) dims <> 0 -> 2 < lenZ dt ->
+  copy_node Cur h lbl dt dims data out = Err.
+Proof.
+  intros Hd Hs Hl. unfold copy_node. rewrite Hd.
+  apply Z.eqb_neq in Hs. rewrite Hs. apply Z.ltb_lt in Hl. rewrite Hl. reflexivity.
+Qed.
+Lemma compound_type_reports_error :
+  copy_file Cur false (fun _ _ => None) 0 false w_compound adf_root = Err /\
+  copy_file Cur true (fun _ _ => None) 0 false w_compound hdf5_root = Err.
+Proof. split; vm_compute; reflexivity. Qed.
 
-(* file B: /X (label LX) with child K -> /Y (internal link), /Y (label YLabel, I4 data);
+(* ---- known finding: follow_links and an internal link inside an externally linked subtree -------------------------------------------
+   file B: /X (label LX) with child K -> /Y (internal link), /Y (label YLabel, I4 data);
    file A: /P/L -> B:/X (external link), /Y (label OtherY) *)
 Definition I4 : bytes := [73;52].
 Definition fileB : node := Node [] [] s_MT [] []
@@ -417,7 +470,7 @@ Definition fileA : node := Node [] [] s_MT [] []
 Definition worldAB : world := [([65], fileA); ([66], fileB)].
 Lemma follow_nested_internal_link_misdirected :
   exists w src dst w', get_file w src = Some fileA /\
-    cgnsconvert 4 w src dst false true = Ok w' /\
+    cgnsconvert Cur 4 w src dst false true = Ok w' /\
     full_view 8 w' dst (match get_file w' dst with Some r => r | None => fileA end) <>
     full_view 8 w src fileA /\
     full_view 8 w src fileA <> None.
@@ -429,11 +482,11 @@ Qed.
 (* a tree that needs no repair, to show the hypotheses of the positive theorems are satisfiable *)
 Definition sample_tree : node := Node [] [] s_MT [] []
   [Node [97] [76;97] I4 [2] [1;0;0;0;2;0;0;0] [Node [99] [] s_MT [] [] []; LinkNode [108] [] [47;97]];
-   Node [98] [] [82;56] [1;1] [0;0;0;0;0;0;240;63] [];
+   Node [98] [] [114;56] [1;1] [0;0;0;0;0;0;240;63] [];
    LinkNode [109] [66] [47;89]].
 
 (* =====================================================================================================================
-   cgnsdiff: with -d and tolerance 0 the output is empty iff the two trees are equal up to the order of children
+   cgnsdiff: with -d and tolerance 0 the output is empty iff the two forests are equal up to the order of children
    ===================================================================================================================== *)
 Module DiffP.
 Definition strip (n : node) : node := rename [] n.
@@ -663,11 +716,11 @@ Proof.
   repeat (destruct H as [<-|H]; [split; reflexivity|]). contradiction.
 Qed.
 
-Lemma node_ok_cases t d da : node_ok false t d da = true ->
+Lemma node_ok_cases t d da : node_ok Old false t d da = true ->
   (d = [] /\ da = []) \/
   (d <> [] /\ std_type t = true /\ forallb (Z.leb 1) d = true /\ lenZ da = std_size t * prodZ d).
 Proof.
-  unfold node_ok. destruct (bytes_eqb t s_MT).
+  unfold node_ok, type_norm. destruct (bytes_eqb t s_MT).
   - intros H. apply andb_true_iff in H as [H1 H2]. destruct d; [|discriminate]. destruct da; [|discriminate]. auto.
   - intros H. apply andb_true_iff in H as [H H3]. apply andb_true_iff in H as [H1 H2].
     destruct d as [|x d].
@@ -679,7 +732,7 @@ Lemma firstn_lenZ {A} (l : list A) : firstn (Z.to_nat (lenZ l)) l = l.
 Proof. unfold lenZ. rewrite Nat2Z.id. apply firstn_all. Qed.
 
 Lemma compare_data_nil n1 n2 a1 l1 t1 d1 da1 k1 a2 l2 t2 d2 da2 k2 :
-  node_ok false t1 d1 da1 = true -> node_ok false t2 d2 da2 = true ->
+  node_ok Old false t1 d1 da1 = true -> node_ok Old false t2 d2 da2 = true ->
   (compare_data true n1 n2 (Node a1 l1 t1 d1 da1 k1) (Node a2 l2 t2 d2 da2 k2) = [] <->
    l1 = l2 /\ t1 = t2 /\ d1 = d2 /\ da1 = da2).
 Proof.
@@ -746,9 +799,9 @@ Section LoopFacts.
 Variable rec : bytes -> bytes -> list dline.
 Variables (nm1 nm2 : bytes).
 
-Lemma diff_loop_nil_fwd c2 : forall l1 done todo,
+Lemma diff_loop_nil_fwd chk c2 : forall l1 done todo,
   c2 = done ++ todo -> NoDup l1 -> (forall p, In p l1 -> ~ In p done) ->
-  diff_loop rec c2 nm1 nm2 l1 (lenZ done) = [] ->
+  diff_loop chk rec c2 nm1 nm2 l1 (lenZ done) = [] ->
   todo = l1 /\ forall p, In p l1 -> rec p p = [].
 Proof.
   induction l1 as [|p rest IH]; intros done todo Hc Hnd Hdone H; cbn [diff_loop] in H.
@@ -781,7 +834,7 @@ Proof.
     assert (Hq : nth (Z.to_nat (lenZ done)) c2 [] = p).
     { rewrite Hc. unfold lenZ. rewrite Nat2Z.id. apply nth_middle. }
     rewrite Hq in H.
-    destruct (path_fits nm1 p && path_fits nm2 p); [|discriminate].
+    destruct (negb chk || (path_fits nm1 p && path_fits nm2 p)); [|discriminate].
     apply app_eq_nil in H as [Hrec H].
     inversion Hnd as [|? ? Hp Hnd']; subst.
     specialize (IH (done ++ [p]) b).
@@ -794,8 +847,8 @@ Qed.
 
 Lemma diff_loop_nil_bwd c : NoDup c -> forall todo done,
   c = done ++ todo ->
-  (forall p, In p todo -> rec p p = [] /\ path_fits nm1 p = true /\ path_fits nm2 p = true) ->
-  diff_loop rec c nm1 nm2 todo (lenZ done) = [].
+  (forall p, In p todo -> rec p p = []) ->
+  diff_loop false rec c nm1 nm2 todo (lenZ done) = [].
 Proof.
   intros Hnd. induction todo as [|p rest IH]; intros done Hc Hall; cbn [diff_loop].
   - rewrite Hc, skipn_lenZ_app. reflexivity.
@@ -810,8 +863,7 @@ Proof.
     rewrite Z.max_id.
     assert (Hq : nth (Z.to_nat (lenZ done)) c [] = p).
     { rewrite Hc. unfold lenZ. rewrite Nat2Z.id. apply nth_middle. }
-    rewrite Hq. destruct (Hall p (or_introl eq_refl)) as (Hr & Hf1 & Hf2).
-    rewrite Hf1, Hf2, Hr. simpl.
+    rewrite Hq. rewrite (Hall p (or_introl eq_refl)). simpl.
     specialize (IH (done ++ [p])). rewrite lenZ_app in IH. apply IH.
     + rewrite <- app_assoc. auto.
     + intros q I. apply Hall. right. auto.
@@ -856,16 +908,14 @@ Lemma kids_iff R ks1 ks2 nm1 nm2 :
   NoDup (map node_name ks1) -> NoDup (map node_name ks2) ->
   (forall p k1 k2, find_kid ks1 p = Some k1 -> find_kid ks2 p = Some k2 ->
                    (R p p = [] <-> canon k1 = canon k2)) ->
-  (forall p, In p (map node_name ks1) -> path_fits nm1 p = true) ->
-  (forall p, In p (map node_name ks2) -> path_fits nm2 p = true) ->
   ((if is_nil (sort_names (map node_name ks1))
     then map (fun q => DRight (slash nm2 q)) (sort_names (map node_name ks2))
     else if is_nil (sort_names (map node_name ks2))
          then map (fun p => DLeft (slash nm1 p)) (sort_names (map node_name ks1))
-         else diff_loop R (sort_names (map node_name ks2)) nm1 nm2 (sort_names (map node_name ks1)) 0) = []
+         else diff_loop false R (sort_names (map node_name ks2)) nm1 nm2 (sort_names (map node_name ks1)) 0) = []
    <-> sort_nodes (map canon ks1) = sort_nodes (map canon ks2)).
 Proof.
-  intros ND1 ND2 HR HF1 HF2.
+  intros ND1 ND2 HR.
   set (c1 := sort_names (map node_name ks1)). set (c2 := sort_names (map node_name ks2)).
   assert (P1 : forall p, In p c1 <-> In p (map node_name ks1)).
   { intros p; split; apply Permutation_in; [|symmetry]; apply sort_names_perm. }
@@ -881,7 +931,7 @@ Proof.
     { destruct c1 as [|x1 r1] eqn:E1; cbn [is_nil] in H.
       - destruct c2; [|discriminate]. split; auto. intros ? [].
       - destruct c2 as [|x2 r2] eqn:E2; cbn [is_nil] in H; [discriminate|].
-        apply (diff_loop_nil_fwd R nm1 nm2 (x2 :: r2) (x1 :: r1) [] (x2 :: r2)); auto. }
+        apply (diff_loop_nil_fwd R nm1 nm2 false (x2 :: r2) (x1 :: r1) [] (x2 :: r2)); auto. }
     clear H. destruct HH as [Ec HRp].
     apply (ksorted_unique node_name).
     + apply sort_nodes_sorted. rewrite map_name_canon; auto.
@@ -903,8 +953,8 @@ Proof.
         symmetry. apply (HR _ _ _ Hk1 Hk2). apply HRp. rewrite <- Ec. auto.
   - intros HL.
     assert (Ec : c2 = c1) by (rewrite <- N1, <- N2, HL; reflexivity).
-    assert (Hall : forall p, In p c1 -> R p p = [] /\ path_fits nm1 p = true /\ path_fits nm2 p = true).
-    { intros p Ip. split; [|split; [apply HF1, P1; auto|apply HF2, P2; rewrite Ec; auto]].
+    assert (Hall : forall p, In p c1 -> R p p = []).
+    { intros p Ip.
       assert (Ip1 : In p (map node_name ks1)) by (apply P1; auto).
       assert (Ip2 : In p (map node_name ks2)) by (apply P2; rewrite Ec; auto).
       destruct (find_kid_in_names _ _ Ip1) as [k1 Hk1]. destruct (find_kid_in_names _ _ Ip2) as [k2 Hk2].
@@ -921,37 +971,35 @@ Proof.
 Qed.
 
 (* ---- facts about the children of a well-formed node -------------------------------------------------------------------------- *)
-Lemma paths_fit_kid pre a l t d da ks k : paths_fit pre (Node a l t d da ks) = true -> In k ks ->
-  pre + 1 + lenZ (node_name k) + 1 <= 1024 /\ paths_fit (pre + 1 + lenZ (node_name k)) k = true.
-Proof.
-  intros H I. cbn [paths_fit] in H. rewrite forallb_forall in H. apply H in I.
-  apply andb_true_iff in I as [I1 I2]. apply Z.leb_le in I1. auto.
-Qed.
 Lemma depth_kid ks k : In k ks -> (depth k <= fold_right (fun k m => Nat.max (depth k) m) O ks)%nat.
 Proof.
   induction ks as [|y r IH]; simpl; [tauto|]. intros [->|I]; [lia|]. specialize (IH I). lia.
 Qed.
-Lemma lenZ_slash a b : lenZ (slash a b) = lenZ a + 1 + lenZ b.
-Proof. unfold slash, lenZ. rewrite app_length. simpl length. lia. Qed.
-Lemma lenZ_unroot x : lenZ (unroot x) <= lenZ x.
-Proof. unfold unroot. destruct (bytes_eqb x [47]); [apply lenZ_nonneg|lia]. Qed.
+(* a child path is never "/" when the child has a name *)
+Lemma slash_not_root a p : p <> [] -> bytes_eqb (slash a p) [47] = false.
+Proof.
+  intros H. apply bytes_eqb_neq. unfold slash. destruct a as [|x a]; simpl.
+  - intros E. injection E as E. contradiction.
+  - intros E. injection E as _ E. destruct a; discriminate.
+Qed.
 
 Lemma chase_node fuel w cf a l t d da ks :
   chase fuel w cf (Node a l t d da ks) = Some (cf, Node a l t d da ks).
 Proof. destruct fuel; reflexivity. Qed.
 
 Lemma compare_nodes_S nd follow w1 w2 f name1 cf1 a1 l1 t1 d1 da1 ks1 name2 cf2 a2 l2 t2 d2 da2 ks2 :
-  compare_nodes nd follow w1 w2 (S f) name1 cf1 (Node a1 l1 t1 d1 da1 ks1) name2 cf2 (Node a2 l2 t2 d2 da2 ks2) =
-  compare_data nd name1 name2 (Node a1 l1 t1 d1 da1 ks1) (Node a2 l2 t2 d2 da2 ks2) ++
+  compare_nodes Cur nd follow w1 w2 (S f) name1 cf1 (Node a1 l1 t1 d1 da1 ks1) name2 cf2 (Node a2 l2 t2 d2 da2 ks2) =
+  (if bytes_eqb name1 [47] && bytes_eqb name2 [47] then []
+   else compare_data nd name1 name2 (Node a1 l1 t1 d1 da1 ks1) (Node a2 l2 t2 d2 da2 ks2)) ++
   (if is_nil (sort_names (map node_name ks1))
    then map (fun q => DRight (slash (unroot name2) q)) (sort_names (map node_name ks2))
    else if is_nil (sort_names (map node_name ks2))
         then map (fun p => DLeft (slash (unroot name1) p)) (sort_names (map node_name ks1))
-        else diff_loop
+        else diff_loop false
                (fun p q =>
                   match find_kid ks1 p, find_kid ks2 q with
                   | Some k1, Some k2 =>
-                      compare_nodes nd follow w1 w2 f (slash (unroot name1) p) cf1 k1 (slash (unroot name2) q) cf2 k2
+                      compare_nodes Cur nd follow w1 w2 f (slash (unroot name1) p) cf1 k1 (slash (unroot name2) q) cf2 k2
                   | _, _ => [DErrExit]
                   end)
                (sort_names (map node_name ks2)) (unroot name1) (unroot name2)
@@ -959,47 +1007,72 @@ Lemma compare_nodes_S nd follow w1 w2 f name1 cf1 a1 l1 t1 d1 da1 ks1 name2 cf2 
 Proof. destruct follow; reflexivity. Qed.
 
 (* ---- main lemma ------------------------------------------------------------------------------------------------------------------ *)
-Lemma diff_main w1 w2 follow : forall fuel t1 t2 name1 name2 cf1 cf2 pre1 pre2,
+Definition diff_stmt (w1 w2 : world) (follow : bool) (f : nat) : Prop :=
+  forall t1 t2 name1 name2 cf1 cf2,
+  bytes_eqb name1 [47] && bytes_eqb name2 [47] = false ->
   link_free t1 = true -> link_free t2 = true ->
   names_unique t1 = true -> names_unique t2 = true ->
-  tree_ok false t1 = true -> tree_ok false t2 = true ->
-  lenZ (unroot name1) <= pre1 -> lenZ (unroot name2) <= pre2 ->
-  paths_fit pre1 t1 = true -> paths_fit pre2 t2 = true ->
-  (depth t1 <= fuel)%nat ->
-  (compare_nodes true follow w1 w2 fuel name1 cf1 t1 name2 cf2 t2 = [] <-> strip (canon t1) = strip (canon t2)).
+  names_nonempty t1 = true -> names_nonempty t2 = true ->
+  tree_ok Old false t1 = true -> tree_ok Old false t2 = true ->
+  (depth t1 <= f)%nat ->
+  (compare_nodes Cur true follow w1 w2 f name1 cf1 t1 name2 cf2 t2 = [] <-> strip (canon t1) = strip (canon t2)).
+
+Definition forest_ok (ks : list node) : Prop :=
+  NoDup (map node_name ks) /\
+  forall k, In k ks -> link_free k = true /\ names_unique k = true /\ node_name k <> [] /\
+                       names_nonempty k = true /\ tree_ok Old false k = true.
+
+Lemma forest_ok_of ks :
+  forallb link_free ks = true -> nodup_names (map node_name ks) = true -> forallb names_unique ks = true ->
+  forallb (fun k => negb (is_nil (node_name k)) && names_nonempty k) ks = true ->
+  forallb (tree_ok Old false) ks = true -> forest_ok ks.
 Proof.
-  induction fuel as [|f IH]; intros t1 t2 name1 name2 cf1 cf2 pre1 pre2 L1 L2 U1 U2 O1 O2 B1 B2 F1 F2 D.
+  intros L N U E O. rewrite forallb_forall in L, U, E, O. split; [apply nodup_names_NoDup; auto|].
+  intros k I. specialize (E k I). apply andb_true_iff in E as [E1 E2].
+  repeat split; auto. intros C. rewrite C in E1. discriminate.
+Qed.
+
+Lemma kids_part w1 w2 follow f nm1 nm2 cf1 cf2 ks1 ks2 :
+  diff_stmt w1 w2 follow f -> forest_ok ks1 -> forest_ok ks2 ->
+  (forall k, In k ks1 -> (depth k <= f)%nat) ->
+  ((if is_nil (sort_names (map node_name ks1))
+    then map (fun q => DRight (slash nm2 q)) (sort_names (map node_name ks2))
+    else if is_nil (sort_names (map node_name ks2))
+         then map (fun p => DLeft (slash nm1 p)) (sort_names (map node_name ks1))
+         else diff_loop false
+                (fun p q =>
+                   match find_kid ks1 p, find_kid ks2 q with
+                   | Some k1, Some k2 => compare_nodes Cur true follow w1 w2 f (slash nm1 p) cf1 k1 (slash nm2 q) cf2 k2
+                   | _, _ => [DErrExit]
+                   end)
+                (sort_names (map node_name ks2)) nm1 nm2 (sort_names (map node_name ks1)) 0) = []
+   <-> sort_nodes (map canon ks1) = sort_nodes (map canon ks2)).
+Proof.
+  intros IH [ND1 A1] [ND2 A2] D. apply kids_iff; auto.
+  intros p k1 k2 E1 E2. cbv beta. rewrite E1, E2.
+  destruct (find_kid_some _ _ _ E1) as [I1 N1]. destruct (find_kid_some _ _ _ E2) as [I2 N2].
+  destruct (A1 _ I1) as (L1 & U1 & M1 & Y1 & O1). destruct (A2 _ I2) as (L2 & U2 & M2 & Y2 & O2).
+  rewrite (IH k1 k2 (slash nm1 p) (slash nm2 p) cf1 cf2); auto.
+  - split; [|intros ->; reflexivity]. intros H. apply strip_name_eq; auto.
+    rewrite !canon_name. congruence.
+  - rewrite slash_not_root; [reflexivity|congruence].
+Qed.
+
+Lemma diff_main w1 w2 follow : forall fuel, diff_stmt w1 w2 follow fuel.
+Proof.
+  induction fuel as [|f IH]; intros t1 t2 name1 name2 cf1 cf2 NR L1 L2 U1 U2 E1 E2 O1 O2 D.
   { destruct t1; simpl in D; lia. }
   destruct t1 as [a1 l1 dt1 d1 da1 ks1|]; [|discriminate].
   destruct t2 as [a2 l2 dt2 d2 da2 ks2|]; [|discriminate].
-  rewrite compare_nodes_S.
-  cbn [link_free] in L1, L2. cbn [names_unique] in U1, U2. cbn [tree_ok] in O1, O2.
+  rewrite compare_nodes_S, NR.
+  cbn [link_free] in L1, L2. cbn [names_unique] in U1, U2. cbn [tree_ok] in O1, O2. cbn [names_nonempty] in E1, E2.
   apply andb_true_iff in U1 as [ND1 U1]. apply andb_true_iff in U2 as [ND2 U2].
   apply andb_true_iff in O1 as [K1 O1]. apply andb_true_iff in O2 as [K2 O2].
-  apply nodup_names_NoDup in ND1. apply nodup_names_NoDup in ND2.
-  rewrite forallb_forall in L1, L2, U1, U2, O1, O2.
   pose proof (compare_data_nil name1 name2 a1 l1 dt1 d1 da1 ks1 a2 l2 dt2 d2 da2 ks2 K1 K2) as CD.
   match goal with |- (_ ++ ?B = [] <-> _) =>
     assert (KI : B = [] <-> sort_nodes (map canon ks1) = sort_nodes (map canon ks2)) end.
-  { apply kids_iff; auto.
-    - intros p k1 k2 E1 E2. cbv beta. rewrite E1, E2.
-      destruct (find_kid_some _ _ _ E1) as [I1 N1]. destruct (find_kid_some _ _ _ E2) as [I2 N2].
-      destruct (paths_fit_kid _ _ _ _ _ _ _ _ F1 I1) as [_ Fk1].
-      destruct (paths_fit_kid _ _ _ _ _ _ _ _ F2 I2) as [_ Fk2].
-      rewrite N1 in Fk1. rewrite N2 in Fk2.
-      rewrite (IH k1 k2 (slash (unroot name1) p) (slash (unroot name2) p) cf1 cf2
-                  (pre1 + 1 + lenZ p) (pre2 + 1 + lenZ p)); auto.
-      + split; [|intros ->; reflexivity]. intros H. apply strip_name_eq; auto.
-        rewrite !canon_name. congruence.
-      + pose proof (lenZ_unroot (slash (unroot name1) p)). rewrite lenZ_slash in *. lia.
-      + pose proof (lenZ_unroot (slash (unroot name2) p)). rewrite lenZ_slash in *. lia.
-      + pose proof (depth_kid _ _ I1). simpl in D. lia.
-    - intros p Ip. apply in_map_iff in Ip as (k & <- & I).
-      destruct (paths_fit_kid _ _ _ _ _ _ _ _ F1 I) as [Hle _].
-      unfold path_fits. apply Z.leb_le. lia.
-    - intros p Ip. apply in_map_iff in Ip as (k & <- & I).
-      destruct (paths_fit_kid _ _ _ _ _ _ _ _ F2 I) as [Hle _].
-      unfold path_fits. apply Z.leb_le. lia. }
+  { apply kids_part; auto using forest_ok_of.
+    intros k I. pose proof (depth_kid _ _ I). simpl in D. lia. }
   unfold strip. cbn [canon rename]. split.
   - intros H. apply app_eq_nil in H as [Ha Hb]. apply CD in Ha as (-> & -> & -> & ->).
     apply KI in Hb. rewrite Hb. reflexivity.
@@ -1009,54 +1082,82 @@ Qed.
 
 (* ---- the theorems ------------------------------------------------------------------------------------------------------------------ *)
 Theorem diff_empty_iff : forall w1 w2 follow fuel name1 cf1 t1 name2 cf2 t2,
+  bytes_eqb name1 [47] && bytes_eqb name2 [47] = false ->
   link_free t1 = true -> link_free t2 = true ->
   names_unique t1 = true -> names_unique t2 = true ->
-  tree_ok false t1 = true -> tree_ok false t2 = true ->
-  paths_fit (lenZ (unroot name1)) t1 = true -> paths_fit (lenZ (unroot name2)) t2 = true ->
+  names_nonempty t1 = true -> names_nonempty t2 = true ->
+  tree_ok Old false t1 = true -> tree_ok Old false t2 = true ->
   (depth t1 <= fuel)%nat ->
-  (compare_nodes true follow w1 w2 fuel name1 cf1 t1 name2 cf2 t2 = [] <-> strip (canon t1) = strip (canon t2)).
+  (compare_nodes Cur true follow w1 w2 fuel name1 cf1 t1 name2 cf2 t2 = [] <-> strip (canon t1) = strip (canon t2)).
 Proof.
-  intros. eapply diff_main; eauto; lia.
+  intros. apply diff_main; auto.
 Qed.
 
+(* whole files: the roots' own label / type / data are NOT compared any more, only the forests below them *)
 Theorem cgnsdiff_silent_iff : forall w1 w2 follow fuel f1 f2 r1 r2,
   get_file w1 f1 = Some r1 -> get_file w2 f2 = Some r2 ->
   link_free r1 = true -> link_free r2 = true ->
   names_unique r1 = true -> names_unique r2 = true ->
-  tree_ok false r1 = true -> tree_ok false r2 = true ->
-  paths_fit 0 r1 = true -> paths_fit 0 r2 = true ->
+  names_nonempty r1 = true -> names_nonempty r2 = true ->
+  kids_ok Old false r1 = true -> kids_ok Old false r2 = true ->
   (depth r1 <= fuel)%nat ->
-  (cgnsdiff true follow w1 w2 fuel f1 f2 = [] <-> strip (canon r1) = strip (canon r2)).
+  (cgnsdiff Cur true follow w1 w2 fuel f1 f2 = [] <->
+   sort_nodes (map canon (kids_of r1)) = sort_nodes (map canon (kids_of r2))).
 Proof.
-  intros w1 w2 follow fuel f1 f2 r1 r2 G1 G2 **. unfold cgnsdiff. rewrite G1, G2.
-  apply diff_empty_iff; auto.
+  intros w1 w2 follow fuel f1 f2 r1 r2 G1 G2 L1 L2 U1 U2 E1 E2 O1 O2 D. unfold cgnsdiff. rewrite G1, G2.
+  destruct fuel as [|f]. { destruct r1; simpl in D; lia. }
+  destruct r1 as [a1 l1 dt1 d1 da1 ks1|]; [|discriminate].
+  destruct r2 as [a2 l2 dt2 d2 da2 ks2|]; [|discriminate].
+  rewrite compare_nodes_S.
+  change (bytes_eqb [47] [47]) with true. change (unroot [47]) with (@nil Z). cbn [andb app kids_of].
+  cbn [link_free] in L1, L2. cbn [names_unique] in U1, U2. cbn [names_nonempty] in E1, E2.
+  unfold kids_ok in O1, O2. cbn [kids_of] in O1, O2.
+  apply andb_true_iff in U1 as [ND1 U1]. apply andb_true_iff in U2 as [ND2 U2].
+  apply kids_part; auto using forest_ok_of, diff_main.
+  intros k I. pose proof (depth_kid _ _ I). simpl in D. lia.
+Qed.
+
+(* equal forests under different roots (an ADF file and its HDF5 conversion) are silent *)
+Theorem cgnsdiff_same_forest_silent : forall w1 w2 follow fuel f1 f2 r1 r2,
+  get_file w1 f1 = Some r1 -> get_file w2 f2 = Some r2 ->
+  kids_of r2 = kids_of r1 ->
+  link_free r1 = true -> link_free r2 = true -> names_unique r1 = true -> names_nonempty r1 = true ->
+  kids_ok Old false r1 = true -> (depth r1 <= fuel)%nat ->
+  cgnsdiff Cur true follow w1 w2 fuel f1 f2 = [].
+Proof.
+  intros w1 w2 follow fuel f1 f2 r1 r2 G1 G2 EK L1 L2 U1 E1 O1 D.
+  apply (cgnsdiff_silent_iff w1 w2 follow fuel f1 f2 r1 r2); auto.
+  - destruct r1; [|discriminate]. destruct r2; [|discriminate]. simpl in EK. subst. exact U1.
+  - destruct r1; [|discriminate]. destruct r2; [|discriminate]. simpl in EK. subst. exact E1.
+  - unfold kids_ok in *. rewrite EK. exact O1.
+  - rewrite EK. reflexivity.
 Qed.
 End DiffP.
 
-(* ---- corners of cgnsdiff (witnesses; each is replayed on the tool) ------------------------------------------------------------------- *)
+(* ---- cgnsdiff: repaired corners (Old / Cur) and the known one ------------------------------------------------------------------------- *)
 Definition strip := DiffP.strip.
 
-(* an ADF file and its HDF5 conversion: the copy is exact and cgnsdiff still reports the roots' labels *)
-Lemma diff_cross_format_root_label :
+(* before 39f8525: an ADF file and its exact HDF5 conversion -- cgnsdiff reported the roots' labels; now it is silent *)
+Lemma diff_cross_format_root_label_old :
   exists w src dst w', get_file w src = Some (with_kids adf_root [Node [78] [76] I4 [1] [7;0;0;0] []]) /\
-    cgnsconvert 4 w src dst true false = Ok w' /\
+    cgnsconvert Cur 4 w src dst true false = Ok w' /\
     (forall r r', get_file w' src = Some r -> get_file w' dst = Some r' -> kids_of r' = kids_of r) /\
-    cgnsdiff true false w' w' 8 src dst = [DLabel [47] [47]].
+    cgnsdiff Old true false w' w' 8 src dst = [DLabel [47] [47]] /\
+    cgnsdiff Cur true false w' w' 8 src dst = [].
 Proof.
   exists [([65], with_kids adf_root [Node [78] [76] I4 [1] [7;0;0;0] []])], [65], [72]. eexists.
-  split; [reflexivity|]. split; [vm_compute; reflexivity|]. split.
-  - intros r r' H1 H2. vm_compute in H1, H2. inversion H1; inversion H2; subst. reflexivity.
-  - vm_compute. reflexivity.
+  split; [reflexivity|]. split; [vm_compute; reflexivity|]. split; [|split; vm_compute; reflexivity].
+  intros r r' H1 H2. vm_compute in H1, H2. inversion H1; inversion H2; subst. reflexivity.
 Qed.
 
-(* two files that differ only in the node a link points to; both targets have the same label, type and (no) data *)
+(* known finding: two files that differ only in the node a link points to; both targets have the same label, type and (no) data *)
 Definition linkfile (v : Z) : node := with_kids adf_root
   [Node [84;49] [] s_MT [] [] [Node [107;49] [] s_MT [] [] []];
    Node [84;50] [] s_MT [] [] [Node [107;50] [] s_MT [] [] []];
    LinkNode [75] [] [47;84;v]].
 Lemma diff_link_target_blind :
   exists w f1 f2 r1 r2, get_file w f1 = Some r1 /\ get_file w f2 = Some r2 /\
-    cgnsdiff true false w w 8 f1 f2 = [] /\
+    cgnsdiff Cur true false w w 8 f1 f2 = [] /\
     strip (canon r1) <> strip (canon r2) /\
     full_view 8 w f1 r1 <> full_view 8 w f2 r2 /\ full_view 8 w f1 r1 <> None /\ full_view 8 w f2 r2 <> None.
 Proof.
@@ -1072,19 +1173,23 @@ Fixpoint chain (n : nat) (i : Z) : list node :=
   end.
 Definition has_overflow (l : list dline) : bool :=
   existsb (fun d => match d with DPathOverflow => true | _ => false end) l.
-Lemma diff_deep_path_overflow :
-  exists w f r, get_file w f = Some r /\ link_free r = true /\ names_unique r = true /\ tree_ok true r = true /\
-    copy_file false (fun _ _ => None) 0 false r adf_root = Ok r /\
-    has_overflow (cgnsdiff true false w w 64 f f) = true.
+(* before e3072bd a tree the copy reproduces exactly made cgnsdiff write past its 1024-byte path buffers; now the same
+   pair is compared to the bottom and found equal *)
+Lemma diff_deep_path_overflow_old :
+  exists w f r, get_file w f = Some r /\ link_free r = true /\ names_unique r = true /\ tree_ok Cur true r = true /\
+    copy_file Cur false (fun _ _ => None) 0 false r adf_root = Ok r /\
+    has_overflow (cgnsdiff Old true false w w 64 f f) = true /\
+    cgnsdiff Cur true false w w 64 f f = [].
 Proof.
   exists [([65], with_kids adf_root (chain 40 0))], [65], (with_kids adf_root (chain 40 0)).
   split; [reflexivity|]. split; [vm_compute; reflexivity|]. split; [vm_compute; reflexivity|].
-  split; [vm_compute; reflexivity|]. split; vm_compute; reflexivity.
+  split; [vm_compute; reflexivity|]. split; [vm_compute; reflexivity|]. split; vm_compute; reflexivity.
 Qed.
 
 (* ---- the hypotheses of the positive theorems are satisfiable ------------------------------------------------------------------------------ *)
 Lemma sample_ok :
-  kids_ok true sample_tree = true /\ forallb links_ok (kids_of sample_tree) = true /\ names_unique sample_tree = true.
+  kids_ok Cur false sample_tree = true /\ forallb links_ok (kids_of sample_tree) = true /\ names_unique sample_tree = true /\
+  kids_ok Old false sample_tree = false.
 Proof. vm_compute. auto. Qed.
 Definition sample_plain : node := with_kids adf_root
   [Node [97] [76;97] I4 [2] [1;0;0;0;2;0;0;0] [Node [99] [] s_MT [] [] []; Node [100] [] [67;49] [3] [104;105;33] []];
@@ -1093,19 +1198,19 @@ Definition sample_plain_permuted : node := with_kids hdf5_root
   [Node [98] [] [82;56] [1;1] [0;0;0;0;0;0;240;63] [];
    Node [97] [76;97] I4 [2] [1;0;0;0;2;0;0;0] [Node [100] [] [67;49] [3] [104;105;33] []; Node [99] [] s_MT [] [] []]].
 Lemma sample_plain_ok :
-  link_free sample_plain = true /\ names_unique sample_plain = true /\ tree_ok false sample_plain = true /\
-  paths_fit 0 sample_plain = true /\ (depth sample_plain <= 8)%nat /\
+  link_free sample_plain = true /\ names_unique sample_plain = true /\ names_nonempty sample_plain = true /\
+  kids_ok Old false sample_plain = true /\ (depth sample_plain <= 8)%nat /\
   canon sample_plain <> sample_plain_permuted /\
   kids_of (canon sample_plain) = kids_of (canon sample_plain_permuted).
 Proof. vm_compute. repeat split; auto; try lia; discriminate. Qed.
 
-Lemma save_as_convert_preserve fuel w src dst dst_hdf5 r :
+Lemma save_as_convert_preserve v fuel w src dst dst_hdf5 r :
   get_file w src = Some r -> is_link r = false ->
-  kids_ok dst_hdf5 r = true -> forallb links_ok (kids_of r) = true ->
-  cg_save_as fuel w src dst dst_hdf5 false = Ok (set_file w dst (with_kids (new_root dst_hdf5) (kids_of r))) /\
-  cgnsconvert fuel w src dst dst_hdf5 false = Ok (set_file w dst (with_kids (new_root dst_hdf5) (kids_of r))).
+  kids_ok v dst_hdf5 r = true -> forallb links_ok (kids_of r) = true ->
+  cg_save_as v fuel w src dst dst_hdf5 false = Ok (set_file w dst (with_kids (new_root dst_hdf5) (kids_of r))) /\
+  cgnsconvert v fuel w src dst dst_hdf5 false = Ok (set_file w dst (with_kids (new_root dst_hdf5) (kids_of r))).
 Proof. intros; split; apply do_copy_file_nofollow; assumption. Qed.
-Lemma follow_succeeds_somewhere : exists w', cgnsconvert 4 worldAB [65] [67] false true = Ok w'.
+Lemma follow_succeeds_somewhere : exists w', cgnsconvert Cur 4 worldAB [65] [67] false true = Ok w'.
 Proof. eexists. vm_compute. reflexivity. Qed.
 
 (* cgnsdiff -d -t1e-6 on the doubles (2.0) and (NaN): "fabs(a-b) > tol" is false for a NaN, nothing is reported
